@@ -403,7 +403,7 @@ func vfContains32(hay, needle []byte) bool {
 	return len(needle) >= 16 && bytes.Contains(hay, needle)
 }
 
-func vfInviteDescribe(ctx context.Context, db *WeshOrbitDB, id int, gtype string) []map[string]any {
+func vfInviteDescribe(ctx context.Context, db *WeshOrbitDB, id int, gtype string, joinMS *MetadataStore) []map[string]any {
 	out := []map[string]any{{"ev": "reset", "id": id}}
 	s := vfNewSession(ctx, gtype, int64(id))
 	g := s.g
@@ -484,6 +484,27 @@ func vfInviteDescribe(ctx context.Context, db *WeshOrbitDB, id int, gtype string
 	}
 	ev["addrmeta"] = same(db.groupMetadataStoreType)
 	ev["addrmsg"] = same(db.groupMessageStoreType)
+
+	// a descriptor is not an invitation: presented to GroupJoin under any group type (as produced, and
+	// with the secret signature copied in from the full group) it must be refused and nothing appended
+	descjoin, descgrew := 0, 0
+	if joinMS != nil {
+		for _, gt := range []protocoltypes.GroupType{d.GroupType, protocoltypes.GroupType_GroupTypeMultiMember, protocoltypes.GroupType_GroupTypeContact, protocoltypes.GroupType_GroupTypeAccount} {
+			for _, withSig := range []bool{false, true} {
+				c := proto.Clone(d).(*protocoltypes.Group) // Group.Copy drops the link key fields
+				c.GroupType = gt
+				if withSig {
+					c.SecretSig = g.SecretSig
+				}
+				before := joinMS.OpLog().Len()
+				if _, err := joinMS.GroupJoin(ctx, c); err == nil {
+					descjoin++
+				}
+				descgrew += joinMS.OpLog().Len() - before
+			}
+		}
+	}
+	ev["descjoin"], ev["descgrew"] = descjoin, descgrew
 	return append(out, ev)
 }
 
@@ -533,7 +554,7 @@ func TestVerifInvite(t *testing.T) {
 			tr.EmitBlock(vfInviteFlipSweep(ctx, js[via], sc.ID))
 		case "desc":
 			gt, _ := sc.Cfg["gtype"].(string)
-			tr.EmitBlock(vfInviteDescribe(ctx, p.DB, sc.ID, gt))
+			tr.EmitBlock(vfInviteDescribe(ctx, p.DB, sc.ID, gt, js["store"].ms))
 		default:
 			vfInfra(" unknown mode %q", mode)
 		}
